@@ -146,6 +146,11 @@ def func_family():
                    ("x", "2.5"), ("-x", "-3"), ("t", "2"), ("x", "a + 1")]:
         exprs.append(f"Mod({a1}, {a2})")
         exprs.append(f"y*Mod({a1}, {a2}) + 1")
+    # every precedence class in both argument positions of the binary function
+    ARGS = ["x", "-x", "x + y", "x - 5", "2*b", "x*y", "b/a", "x/2", "b**2", "(x + 1)*(y + 2)", "abs(y) + 1", "t"]
+    for a1 in ARGS:
+        for a2 in ["b", "2*b", "b/a", "b + 1", "-b", "b**2", "a*b*2", "2.5", "x + 3"]:
+            exprs.append(f"Mod({a1}, {a2})")
     exprs += ["floor(x) + floor(-x)", "floor(x/2)*2", "abs(x) - abs(-x)", "abs(x*y) - abs(x)*abs(y)",
               "sqrt(x*x)", "exp(x)*exp(-x)", "log(exp(x))", "exp(log(a))", "sin(x)**2 + cos(x)**2",
               "exp(x + y) - exp(x)*exp(y)", "sqrt(x)**2", "cos(pi)", "sin(pi/2)", "cos(2*pi*x)", "exp(1)", "exp(0)",
@@ -317,6 +322,19 @@ def select(items, n, seed, keep_first=0):
     return head + [rest[i] for i in idx]
 
 
+def wide_program(n=12):
+    """More than 10 states / monitored quantities (two-digit slot numbers)."""
+    names = [f"q{i}" for i in range(n)]
+    lines = ["parameters(a=0.5, b=2.0)", "states(" + ", ".join(f"{s}={1.0 + 0.25 * i}" for i, s in enumerate(names)) + ")"]
+    for i, s in enumerate(names):
+        lines.append(f"m{i} = a*{s} + {i + 1}*b")
+    for i, s in enumerate(names):
+        nxt = names[(i + 1) % n]
+        lines.append(f"d{s}_dt = -m{i} + {nxt}*{i + 2}")
+    t = "\n".join(lines) + "\n"
+    return {"family": "WIDE", "id": text_id(t), "text": t, "meta": {"n": n}}
+
+
 def value_programs(tier, seed):
     """The shared program universe for value properties (C01, C02, C03, C05...)."""
     ex = expr_family(3 if tier == "quick" else 4)
@@ -331,4 +349,5 @@ def value_programs(tier, seed):
     dg = dag_family(2 if tier == "quick" else 3, 2)
     P += select(dg, 40 if tier == "quick" else 600, seed)
     P += layout_family()
+    P.append(wide_program(12))
     return P
